@@ -710,3 +710,7 @@ mod tests {
         assert!(err.is_err())
     }
 }
+
+#[cfg(kani)]
+#[path = "/verif/kani/parquet-variant/decoder.rs"]
+mod verif_kani;
